@@ -80,12 +80,11 @@ def make_clean(rng, fs, gctx):
                     ps = []
                     for (dr, t, sh, pn) in m[2]:
                         if t == "interface" and sh:
-                            cands = [x for x in idx if x != d[1]]
-                            if not cands:
-                                continue
-                            t = sorted(cands)[0]
+                            continue
                         if nested_obj(t):
                             continue
+                        if t in gctx.structs and gctx.structs[t]["objs"] > 0 and gctx.structs[t]["size"] <= 16:
+                            continue        # a small object-bearing struct is bundled with its handle (C02 K_interleave class)
                         ps.append((dr, t, sh, pn))
                     m = (m[0], m[1], ps, m[3], m[4])
                 ms.append(m)
@@ -181,6 +180,7 @@ CLASSES = [
     ("K_rust_float_int_literal", ("rust",), lambda F, u: F["float_int_literal"], r"mismatched types|expected `f(32|64)`, found integer|E0308"),
     ("K_base_list", ("cpp",), lambda F, u: F["deep_chain"], r".*"),
     ("K_cpp_untyped_objarr", ("cpp",), lambda F, u: F["untyped_objarr"] or (u and F["objarr"]), r"has no member named '(get|consume)'|no member named '(get|consume)'|ProxyBase|Object"),
+    ("K_untyped_drops_const", ("c",), lambda F, u: u and F["objarr"], r"discards 'const' qualifier|discarded-array-qualifiers|discards qualifiers"),
     ("K_nested_obj_path", ("cpp",), lambda F, u: F["nested_obj_path"], r"base operand of '->'|member reference type .* is not a pointer"),
 ]
 
@@ -205,7 +205,7 @@ def errlines(text):
 
 
 # ---------------------------------------------------------------- user code
-def c_sig(gctx, idx, params):
+def c_sig(gctx, idx, params, untyped=False):
     out = []
     for d, t, sh, pn in params:
         isobj = t == "interface" or t in idx
@@ -214,7 +214,7 @@ def c_sig(gctx, idx, params):
                 out.append(("Object %s" if d == "in" else "Object *%s") % pn)
             else:
                 n = int(sh[1:-1])
-                out.append(("const Object (*%s_ptr)[%d]" if d == "in" else "Object (*%s_ptr)[%d]") % (pn, n))
+                out.append(("const Object (*%s_ptr)[%d]" if d == "in" and not untyped else "Object (*%s_ptr)[%d]") % (pn, n))
         elif sh is None and t != "buffer":
             ct = CT.get(t, t)
             if d == "in":
@@ -230,7 +230,7 @@ def c_sig(gctx, idx, params):
     return out
 
 
-def c_user(fs, gctx, path, stem):
+def c_user(fs, gctx, path, stem, untyped=False):
     """a translation unit instantiating the skeleton of every interface declared in the file"""
     idx = iface_index(fs)
     A = ['#include <stdint.h>\n#include <stddef.h>\n#include "object.h"\n#include "%s.h"\n#include "%s_invoke.h"\n' % (stem, stem)]
@@ -247,7 +247,7 @@ def c_user(fs, gctx, path, stem):
             for m in idx[anc][2]:
                 if m[0] != "method":
                     continue
-                sig = ", ".join(["Ctx_%s *ctx__" % name] + c_sig(gctx, idx, m[2]))
+                sig = ", ".join(["Ctx_%s *ctx__" % name] + c_sig(gctx, idx, m[2], untyped))
                 A.append("%sint32_t %s%s(%s) { (void)ctx__; return Object_OK; }" % ("" if m[3] else "static ", pre, m[1], sig))
         A.append("static %s_DEFINE_INVOKE(%sinvoke, %s, Ctx_%s *)" % (name, pre, pre, name))
         A.append("Object make_%s(Ctx_%s *c) { return (Object){%sinvoke, c}; }" % (name, name, pre))
@@ -294,10 +294,12 @@ def rust_user(outdir, fs, path):
             fns, depth2, cur = [], 0, ""
             for ch in body:
                 cur += ch
-                if ch in "([<{":
+                if ch in "([{":
                     depth2 += 1
-                elif ch in ")]>}":
-                    depth2 -= 1 if not cur.endswith("->") else 0
+                elif ch in ")]}":
+                    depth2 -= 1
+                    if ch == "}" and depth2 == 0:
+                        cur = ""            # a method with a default body (optional): nothing to implement
                 elif ch == ";" and depth2 == 0:
                     if "fn " in cur:
                         fns.append(cur[cur.index("fn "):].strip())
@@ -355,7 +357,7 @@ def java_user(outdir, fs, path):
 
 
 # ---------------------------------------------------------------- one case
-def build_case(ctx_, root, fs, gctx, untyped, compilers):
+def build_case(ctx_, root, fs, gctx, untyped, compilers, java=True):
     """-> list of {lang, role, file, cc, lines} for every compile that printed a diagnostic"""
     extra = ["--no-typed-objects"] if untyped else []
     paths = [f["path"] for f in fs["files"]]
@@ -376,7 +378,7 @@ def build_case(ctx_, root, fs, gctx, untyped, compilers):
         r = em[rel]
         # ---- C
         if r[("c", "stub")][0] == 0 and r[("c", "skel")][0] == 0:
-            srcs = {"stub": '#include "%s.h"\n' % stem, "skel": '#include "%s.h"\n#include "%s_invoke.h"\n' % (stem, stem), "user": c_user(fs, gctx, rel, stem)}
+            srcs = {"stub": '#include "%s.h"\n' % stem, "skel": '#include "%s.h"\n#include "%s_invoke.h"\n' % (stem, stem), "user": c_user(fs, gctx, rel, stem, untyped)}
             for role, text in srcs.items():
                 src = os.path.join(out, "c", "tu_%s_%s.c" % (stem, role))
                 open(src, "w").write(text)
@@ -414,7 +416,7 @@ def build_case(ctx_, root, fs, gctx, untyped, compilers):
         if rc != 0 or ls:
             diags.append({"lang": "rust", "role": "both+user", "file": rel, "cc": "rustc", "lines": ls or [e[-300:]], "src": src, "full": e[-1500:]})
     jdir = os.path.join(out, "java")
-    if em[rel][("java", "both")][0] == 0:
+    if java and em[rel][("java", "both")][0] == 0:
         src = os.path.join(jdir, "User.java")
         open(src, "w").write(java_user(jdir, fs, rel))
         srcs = [os.path.join(dp, f) for dp, _, fns in os.walk(RTJ) for f in fns if f.endswith(".java")] + [os.path.join(jdir, f) for f in sorted(os.listdir(jdir)) if f.endswith(".java")]
@@ -425,3 +427,213 @@ def build_case(ctx_, root, fs, gctx, untyped, compilers):
         if rc != 0 or ls:
             diags.append({"lang": "java", "role": "both+user", "file": rel, "cc": "javac", "lines": ls or [e[-300:]], "src": src})
     return diags, ncomp, emitfail
+
+
+# ---------------------------------------------------------------- fixed witnesses of the known classes
+def witness_cases():
+    """(class, language keys it concerns, file set, struct table)"""
+    W = []
+    def fs1(decls, path="main.idl"):
+        return {"files": [{"path": path, "includes": [], "decls": decls}], "main": path, "idirs": []}
+    W.append(("K_float_macro", ("c", "cpp"), fs1([("const", "float32", "KF", "1.5"), ("iface", "IW", None, [("const", "float64", "KD", "2.5"), ("method", "m", [], False, None)])])))
+    W.append(("K_rust_float_int_literal", ("rust",), fs1([("iface", "IW", None, [("const", "float32", "KF", "3"), ("method", "m", [], False, None)])])))
+    W.append(("K_java_float_const", ("java",), fs1([("iface", "IW", None, [("const", "float32", "KF", "1.5"), ("method", "m", [], False, None)])])))
+    W.append(("K_base_list", ("cpp",), fs1([("iface", "IA", None, [("method", "a", [], False, None)]), ("iface", "IB", "IA", [("method", "b", [], False, None)]),
+                                            ("iface", "IC", "IB", [("method", "c", [], False, None)])])))
+    W.append(("K_cpp_untyped_objarr", ("cpp",), fs1([("iface", "IW", None, [("method", "m", [("in", "interface", "[2]", "p0"), ("out", "interface", "[2]", "p1")], False, None)])])))
+    W.append(("K_nested_obj_path", ("cpp",), fs1([("struct", "SO", [("interface", 1, "o"), ("uint64", 1, "a"), ("uint64", 1, "b")]),
+                                                   ("struct", "SN", [("SO", 1, "x"), ("uint64", 1, "y"), ("uint64", 1, "z")]),
+                                                   ("iface", "IW", None, [("method", "m", [("in", "SN", None, "p0"), ("out", "SN", None, "p1")], False, None)])])))
+    W.append(("K_small_obj_struct_bundled", ("c", "rust"), fs1([("struct", "SS", [("interface", 1, "o")]),
+                                                               ("iface", "IW", None, [("method", "m", [("in", "SS", None, "p0"), ("in", "uint32", None, "p1")], False, None)])])))
+    W.append(("K_java_iface_named_after_file", ("java",), fs1([("iface", "IWit", None, [("method", "m", [("in", "uint32", None, "p0")], False, None)])], path="IWit.idl")))
+    return W
+
+
+def witness_ctx(fs):
+    g = gen.Ctx(None)
+    for f in fs["files"]:
+        for d in f["decls"]:
+            if d[0] == "struct":
+                objs = sum(1 for t, c, n in d[2] if t == "interface") + sum(g.structs[t]["objs"] for t, c, n in d[2] if t in g.structs)
+                g.structs[d[1]] = {"size": 0, "align": 8, "objs": objs, "fields": d[2], "file": 0}
+            elif d[0] == "iface":
+                g.ifaces[d[1]] = {"base": d[2], "file": 0}
+    return g
+
+
+# names whose generated identifiers coincide with template locals (the Coq model Emit.shadows
+# decides; this table only selects which combinations the quick tier always compiles)
+COLLIDE = {"c": ["a", "me", "r", "result"], "cpp": ["a", "invoke", "r", "result"], "rust": ["args", "cx"],
+           "java": ["bi", "bo", "boSizes", "oi", "oo", "mObj", "methodID", "bundleIn", "bundleOut", "i"]}
+SAFE_NAMES = ["k", "op", "args_ptr", "counts", "h", "n", "size", "ptr", "val", "len", "o", "b", "prefix", "ret", "obj", "arg_idx", "e", "err", "value",
+              "x", "y", "data", "buf", "p0", "cpy", "s", "t", "q", "idx", "index", "p_x", "minkObject", "zz"]
+NKINDS = {"prim_in": ("in", "uint32", None), "prim_out": ("out", "uint32", None), "obj_in": ("in", "interface", None), "obj_out": ("out", "interface", None),
+          "buf_in": ("in", "buffer", None), "buf_out": ("out", "buffer", None), "struct_in": ("in", "SB", None), "tobj_in": ("in", "IOther", None),
+          "arr_in": ("in", "uint16", "[]"), "arr_out": ("out", "uint16", "[]"), "objarr_in": ("in", "IOther", "[2]"), "objarr_out": ("out", "IOther", "[2]")}
+LCODE = {"c": 0, "cpp": 1, "rust": 2, "java": 3}
+
+
+def name_case(name, kind):
+    d, t, sh = NKINDS[kind]
+    g = gen.Ctx(None)
+    g.structs["SB"] = {"size": 24, "align": 8, "objs": 0, "fields": [("uint64", 1, "f0"), ("uint64", 1, "f1"), ("uint64", 1, "f2")], "file": 0}
+    g.ifaces["IOther"] = {"base": None, "file": 0}
+    g.ifaces["INm"] = {"base": None, "file": 0}
+    fs = {"files": [{"path": "main.idl", "includes": [], "decls": [
+        ("struct", "SB", g.structs["SB"]["fields"]), ("iface", "IOther", None, [("method", "nop", [], False, None)]),
+        ("iface", "INm", None, [("method", "m", [(d, t, sh, name), ("in", "uint64", None, "zz1")], False, None)])]}], "main": "main.idl", "idirs": []}
+    return fs, g
+
+
+def run(ctx_):
+    prop, tier, seed, work = ctx_["prop"], ctx_["tier"], ctx_["seed"], ctx_["work"]
+    ncases = 6 if tier == "quick" else 120
+    res = {"coverage": {}, "failures": [], "corr_broken": []}
+    rng = vlib.mkrng(seed, prop)
+    compilers = {"c": ["gcc", "clang"], "cpp": ["g++", "clang++"]}
+    jobs = []         # (tag, fs, gctx, untyped, meta)
+    for k in range(ncases):
+        fs, gctx = gen.gen_fileset(rng, nfiles=rng.choice([1, 2, 3]))
+        safe_consts(rng, fs)
+        make_clean(rng, fs, gctx)
+        jobs.append(("clean", fs, gctx, False, {}))
+        if k % 3 == 0:
+            jobs.append(("clean-untyped", fs, gctx, True, {}))
+    for cls, langs, fs in witness_cases():
+        jobs.append(("witness", fs, witness_ctx(fs), False, {"class": cls, "langs": langs}))
+    # parameter names: every (language, colliding name, kind) of the table and a sample of names outside it
+    pairs = []
+    for lang, names in COLLIDE.items():
+        for nme in names:
+            for kind in (NKINDS if tier != "quick" else ["obj_in", "obj_out", "prim_in", "prim_out", "objarr_out"]):
+                pairs.append((nme, kind))
+    pairs = sorted(set(pairs))
+    safe = [(nme, kind) for nme in SAFE_NAMES for kind in NKINDS]
+    rng.shuffle(safe)
+    pairs += safe[:24 if tier == "quick" else 400]
+    for nme, kind in pairs:
+        fs, g = name_case(nme, kind)
+        jobs.append(("name", fs, g, False, {"name": nme, "kind": kind}))
+
+    def do(j):
+        tag, fs, gctx, untyped, meta = jobs[j]
+        root = os.path.join(work, "j%d" % j)
+        gen.write_fileset(fs, root)
+        cc = compilers if tag != "name" else {"c": ["gcc"], "cpp": ["g++"]}
+        diags, ncomp, emitfail = build_case(ctx_, root, fs, gctx, untyped, cc, java=not tag.startswith("clean"))
+        if tag.startswith("clean"):
+            emitfail = [x for x in emitfail if x[1][0] != "java"]
+        return j, (diags, ncomp, emitfail)
+
+    with ThreadPoolExecutor(max_workers=vlib.NCPU) as ex:
+        results = dict(ex.map(do, range(len(jobs))))
+    # the model's verdict on every name case
+    sdefs, order = [], []
+    for j, (tag, fs, gctx, untyped, meta) in enumerate(jobs):
+        if tag == "name":
+            isobj = meta["kind"] in ("obj_in", "obj_out", "tobj_in", "objarr_in", "objarr_out")
+            for lang in ("c", "cpp", "rust", "java"):
+                order.append((j, lang))
+                sdefs.append('(%d, %d, "%s")' % (LCODE[lang], 1 if isobj else 0, meta["name"]))
+    shadow = {}
+    if ctx_["checks_vo"] and sdefs:
+        fl, errors = vlib.eval_cases(os.path.join(work, "coq"), "shadow", "", [(0, "", "(chk_shadow [%s] ++ chk_base_clause [0; 1; 2; 3])%%list" % "; ".join(sdefs))], shard_size=1)
+        for e in errors:
+            res["corr_broken"].append({"kind": "case-evaluation", "detail": e})
+        flags = fl.get(0, [])
+        if len(flags) == len(order) + 4:
+            for (j, lang), v in zip(order, flags):
+                shadow[(j, lang)] = v == 1
+            if flags[-4:] != [1, 1, 0, 0]:
+                res["corr_broken"].append({"kind": "correspondence", "detail": "base-clause model: well-formedness for depth 0..3 is %s" % flags[-4:]})
+    ncomp_total, nclean, hits, nname = 0, 0, {}, 0
+    for j, (tag, fs, gctx, untyped, meta) in enumerate(jobs):
+        diags, ncomp, emitfail = results[j]
+        ncomp_total += ncomp
+        text = {f["path"]: gen.render_file(f) for f in fs["files"]}
+        for rel, key, diag in emitfail:
+            if tag == "name":
+                continue        # a name the Rust backend cannot even emit is a reserved word there
+            res["failures"].append({"property": prop, "idl": text, "what": "idlc rejects a valid file (%s %s): %s" % (rel, key, diag[-200:])})
+        if tag in ("clean", "clean-untyped"):
+            nclean += 1
+            for d in diags:
+                F = file_facts(fs, gctx, d["file"])
+                hit, rest = attribute(d["lang"], F, untyped, d["lines"])
+                for c in hit:
+                    hits[c] = hits.get(c, 0) + 1
+                    res["failures"].append({"property": prop, "known_class": c, "idl": text, "what": "%s %s of %s: %s" % (d["cc"], d["role"], d["file"], d["lines"][0][:200])})
+                if rest:
+                    res["failures"].append({"property": prop, "idl": text, "untyped_objects": untyped, "compiler": d["cc"], "role": d["role"], "file": d["file"],
+                                            "what": "generated %s code (%s) does not build warning-clean: %s" % (d["lang"], d["role"], rest[0][:300]), "diagnostics": rest[:6]})
+        elif tag == "witness":
+            cls, langs = meta["class"], meta["langs"]
+            bad = [d for d in diags if d["lang"] in langs]
+            other = [d for d in diags if d["lang"] not in langs]
+            if bad:
+                hits[cls] = hits.get(cls, 0) + 1
+                res["failures"].append({"property": prop, "known_class": cls, "idl": text, "what": "%s: %s" % (bad[0]["cc"], bad[0]["lines"][0][:200])})
+        else:
+            nname += 1
+            failing = sorted(set(d["lang"] for d in diags))
+            for lang in ("c", "cpp", "rust", "java"):
+                pred = shadow.get((j, lang))
+                if lang in failing:
+                    d = [x for x in diags if x["lang"] == lang][0]
+                    if pred:
+                        hits["K_param_shadows_local"] = hits.get("K_param_shadows_local", 0) + 1
+                        res["failures"].append({"property": prop, "known_class": "K_param_shadows_local", "idl": text,
+                                                "what": "%s: parameter `%s` (%s): %s" % (lang, meta["name"], meta["kind"], d["lines"][0][:200])})
+                    else:
+                        res["failures"].append({"property": prop, "idl": text, "language": lang, "parameter_name": meta["name"], "kind": meta["kind"],
+                                                "what": "generated %s code does not build for a parameter called `%s` although none of the identifiers derived from it is a template local: %s" % (lang, meta["name"], d["lines"][0][:300])})
+    # ---- Java: the class-0 interfaces of one C18-style batch, compiled with user code
+    import p_java
+    jb = 1 if tier == "quick" else 10
+    njava = 0
+    if ctx_["harness"] and ctx_["checks_vo"]:
+        for b in range(jb):
+            c, decls, cands = p_java.gen_batch(rng)
+            root = os.path.join(work, "java%d" % b)
+            os.makedirs(os.path.join(root, "out"), exist_ok=True)
+            open(os.path.join(root, "cand.idl"), "w").write(p_java.render(decls, "IJ", [("c%d" % i, ps) for i, ps in enumerate(cands)]))
+            cf = os.path.join(root, "cases.txt")
+            open(cf, "w").write("0\tcli\t-\t%s\t\n" % os.path.join(root, "cand.idl"))
+            rc, out, err = vlib.run([ctx_["harness"], "front", cf], timeout=300)
+            h = vlib.parse_harness(out).get("0")
+            if not h or h["result"] != "ok":
+                continue
+            cl, errors = vlib.eval_cases(os.path.join(root, "coq"), "jcls", "", [(0, "Definition f_0 : list ast := %s.\n" % h["files"], 'chk_java_classes f_0 "IJ"')], shard_size=1)
+            cl = cl.get(0)
+            if not cl or len(cl) != len(cands):
+                continue
+            methods = [("m%d" % i, ps) for i, (ps, kk) in enumerate(zip(cands, cl)) if kk == 0]
+            open(os.path.join(root, "l2.idl"), "w").write(p_java.render(decls, "IJ", methods))
+            r = scrape.idlc_run(ctx_["idlc"], os.path.join(root, "l2.idl"), os.path.join(root, "out"), "java", False)
+            if r[0] != 0:
+                continue
+            fsj = {"files": [{"path": "l2.idl", "includes": [], "decls": list(decls) + [("iface", "IJ", None, [("method", n, ps, False, None) for n, ps in methods])]}], "main": "l2.idl", "idirs": []}
+            src = os.path.join(root, "out", "User.java")
+            open(src, "w").write(java_user(os.path.join(root, "out"), fsj, "l2.idl"))
+            srcs = [os.path.join(dp, f) for dp, _, fns in os.walk(RTJ) for f in fns if f.endswith(".java")] + [os.path.join(root, "out", f) for f in sorted(os.listdir(os.path.join(root, "out"))) if f.endswith(".java")]
+            os.makedirs(os.path.join(root, "cls"), exist_ok=True)
+            rc, o, e = vlib.run(["javac", "-d", os.path.join(root, "cls")] + srcs, timeout=300)
+            ncomp_total += 1
+            njava += len(methods)
+            ls = [l for l in e.split("\n") if ": error:" in l or ": warning:" in l or l.startswith("Note:")]
+            if rc != 0 or ls:
+                res["failures"].append({"property": prop, "idl": p_java.render(decls, "IJ", methods), "what": "generated Java of methods outside every known class does not build clean with javac: %s" % (ls or [e[-300:]])[0][:300]})
+    res["coverage"] = {
+        "evaluations": ncomp_total, "distinct_nontrivial": nclean + nname,
+        "rule": "%d generated valid file sets (1-3 files with includes, constants, nested structs with objects, hierarchies of depth <= 2, every parameter kind, optional methods; "
+                "every third also with --no-typed-objects), every file as main file: stub TU, skeleton TU and a conforming user TU, gcc + clang (C, -Wall -Wextra -Werror "
+                "-Wno-unused-parameter) and g++ + clang++ (C++, also -Wno-missing-field-initializers); the Rust modules with implementations of every trait under deny(warnings) "
+                "with allow(unused, nonstandard_style) on generated code; Java with javac against the stand-in runtime; fixed witnesses of 8 known classes; %d single-method "
+                "interfaces whose parameter is called like a local of the generated code or not (model Emit.shadows decides which must fail); %d class-0 Java methods with user code; "
+                "non-trivial = a clean case or a name case" % (ncases, nname, njava),
+        "samples": [{"idl": {f["path"]: gen.render_file(f) for f in jobs[0][1]["files"]}}],
+        "known_classes_hit": hits, "compiler_invocations": ncomp_total,
+    }
+    res["trusted_extra"] = ["gcc 12 / clang 14 / g++ / clang++ / rustc / javac 17 as the judges of 'builds warning-clean'; lib/p_build.py user-code generators"]
+    return res
